@@ -170,12 +170,16 @@ def check(case, rec):
     else:
         ex = ex_logical if ex_logical is not None else expected_content(fs)
     cuts = [case['cut']] if case.get('cut') is not None else range(4, len(data) + 1)
+    if case.get('cut') is None and case.get('last_segments_only'):
+        cuts = range(lay[-case['last_segments_only']]['start'], len(data) + 1)
     classes = ['daqmx'] if case['fs'].get('_kind') == 'daqmx' else S.spec_classes(fs)
     first = True
     for cut in cuts:
         if not first:
             rec.end()
         rec.begin({'fs': case['fs'], 'marker': marker, 'cut': cut, 'picks': case.get('picks')})
+        if case.get('last_segments_only'):
+            rec.label('long_twin_file')
         first = False
         rec.label(*classes)
         rec.label('marker' if marker else 'explicit')
@@ -200,6 +204,13 @@ def daqmx_cases(draw):
 
 
 @st.composite
+def twin_cases(draw):
+    # 100+ segments, channels whose offset tables agree for about a hundred entries; cuts restricted to the last segments
+    fs = draw(S.twin_long_file(max_segments=110))
+    return {'fs': fs, 'marker': False, 'cut': None, 'last_segments_only': 2}
+
+
+@st.composite
 def plan_cases(draw):
     from props.C02 import history
     h = draw(history(max_segments=4, max_channels=3))
@@ -214,6 +225,8 @@ def jobs(tier):
                 Job('data_heavy_files_x_all_cuts', 'hyp',
                     lambda: cases(props=False, nodata_entries=False, max_n=5, max_chunks=4), n=200,
                     note='every cut offset 4..len(file) of each generated file'),
+                Job('long_twin_files_x_cuts_in_last_segments', 'hyp', twin_cases, n=16,
+                    note='every cut offset inside the last two segments of 100+ segment files'),
                 Job('daqmx_files_x_all_cuts', 'hyp', daqmx_cases, n=120,
                     note='every cut offset of DAQmx files (scaled data = highest-numbered scaler)'),
                 Job('inherited_metadata_files_x_all_cuts', 'hyp', plan_cases, n=200,
@@ -223,6 +236,8 @@ def jobs(tier):
             Job('data_heavy_files_x_all_cuts', 'hyp',
                 lambda: cases(props=False, nodata_entries=False, max_n=5, max_chunks=4), n=6000,
                 note='every cut offset 4..len(file) of each generated file'),
+            Job('long_twin_files_x_cuts_in_last_segments', 'hyp', twin_cases, n=400,
+                note='every cut offset inside the last two segments of 100+ segment files'),
             Job('daqmx_files_x_all_cuts', 'hyp', daqmx_cases, n=4000,
                 note='every cut offset of DAQmx files (scaled data = highest-numbered scaler)'),
             Job('inherited_metadata_files_x_all_cuts', 'hyp', plan_cases, n=6000,
